@@ -49,7 +49,7 @@ func runLBHealth(x *X) {
 
 	var bcs []config.BackendConfig
 	for i := 0; i < nb; i++ {
-		bcs = append(bcs, config.BackendConfig{Name: fmt.Sprintf("b%d", i), Address: fmt.Sprintf("http://10.1.0.%d:80", i+1), Weight: c.Intn(4, "weight")})
+		bcs = append(bcs, config.BackendConfig{Name: fmt.Sprintf("b%d", i), Address: fmt.Sprintf("http://10.1.0.%d:80", i+1), Weight: []int{1, 0, 2, 3, 6, 10, 1, 8}[c.Intn(8, "weight")]})
 	}
 	nSteps := 3 + c.Intn(10, "nsteps")
 	if x.Tier == "thorough" {
